@@ -10,6 +10,7 @@ import (
 	"math/big"
 	"runtime"
 	"sync"
+	"time"
 
 	"github.com/33cn/chain33/common/difficulty"
 	"verif/vx"
@@ -147,6 +148,9 @@ func main() {
 			fmt.Println("replay: ok")
 		}
 		r.Finish()
+	}
+	if !r.Quick() {
+		r.SetBudget(90 * time.Minute) // all 2^32 compact values take about 40 minutes on 16 quiet cores
 	}
 	var ms []uint32
 	mantissas(r.Quick(), func(m uint32) { ms = append(ms, m) })
